@@ -70,9 +70,9 @@ mut('m-c07-poll-before-ready', 'C07', 'lomond/session.py', "            if self.
 mut('m-c07-no-disconnected-after-closed', 'C07', 'lomond/session.py', "            self._close_socket()\n            yield events.Disconnected(graceful=True)\n", "            self._close_socket()\n            if not websocket.is_closed or websocket.sent_close_time is None:\n                yield events.Disconnected(graceful=True)\n",
     'no terminal event after a completed client-initiated close')
 # ---- C08
-mut('m-c08-echo-code', 'C08', 'lomond/websocket.py', "            self.close(message.code, message.reason)\n", "            self.close(message.code or Status.NORMAL, message.reason)\n", 'empty server Close echoed with code 1000')
-mut('m-c08-sends-during-closing-refused', 'C08', 'lomond/websocket.py', "            yield events.Closing(message.code, message.reason)\n            self.close(message.code, message.reason)\n",
-    "            self.state.closing = message.code == 3000\n            yield events.Closing(message.code, message.reason)\n            self.state.closing = False\n            self.close(message.code, message.reason)\n", 'sends during Closing refused for one particular close code')
+mut('m-c08-echo-code', 'C08', 'lomond/websocket.py', "            self._close(state, message.code, message.reason)\n", "            self._close(state, message.code or Status.NORMAL, message.reason)\n", 'empty server Close echoed with code 1000')
+mut('m-c08-sends-during-closing-refused', 'C08', 'lomond/websocket.py', "            yield events.Closing(message.code, message.reason)\n            self._close(state, message.code, message.reason)\n",
+    "            state.closing = message.code == 3000\n            yield events.Closing(message.code, message.reason)\n            state.closing = False\n            self._close(state, message.code, message.reason)\n", 'sends during Closing refused for one particular close code')
 mut('m-c08-graceful-wrong', 'C08', 'lomond/session.py', "                        if websocket.is_active:\n", "                        if websocket.is_active or websocket.sent_close_time == 0.0:\n",
     'server dropping after an echo made at session time 0 is reported non-graceful')
 # ---- C09
@@ -92,12 +92,12 @@ mut('m-c10-maxbytes', 'C10', 'lomond/frame_parser.py', "                b\"\\r\\
 # ---- C11 / C12
 mut('m-c11-no-compress-lock', 'C11', 'lomond/websocket.py', "            with state.compress_lock:\n                _payload = state.compression.compress(payload)\n",
     "            if True:\n                _payload = state.compression.compress(payload)\n", 'compress+write of text no longer atomic')
-mut('m-c11-write-lock-removed', 'C11', 'lomond/session.py', "        with self._lock:\n            if self._sock is None:\n                log.debug('WebSocket unavailable; data not sent')\n",
-    "        if True:\n            if self._sock is None:\n                log.debug('WebSocket unavailable; data not sent')\n", 'write lock removed: frames can be torn')
+mut('m-c11-write-lock-removed', 'C11', 'lomond/session.py', "        with self._lock:\n            if self._writing:\n",
+    "        if True:\n            if self._writing:\n", 'write lock removed: frames can be torn')
 mut('m-c12-flag-after-write', 'C12', 'lomond/session.py', "            if closing:\n", "            if closing and False:\n", 'closing flag no longer set under the write lock (original check-then-act race)')
 # ---- C13
 mut('m-c13-finally-close-removed', 'C13', 'lomond/session.py', "            # A no-op unless the consumer abandoned the generator\n            self._close_socket()\n", "", 'socket not closed when the generator is abandoned outside feed()')
-mut('m-c13-generatorexit-handler-removed', 'C13', 'lomond/websocket.py', "            if self.state is state:\n                self.on_disconnect()\n", "            if self.state is state:\n                pass\n", 'GeneratorExit handler no longer closes the session (still covered by run() finally after the fix: may survive)')
+mut('m-c13-generatorexit-handler-removed', 'C13', 'lomond/websocket.py', "            self.on_disconnect(state)\n\n    def build_request", "            pass\n\n    def build_request", 'GeneratorExit handler no longer closes the session (still covered by run() finally after the fix: may survive)')
 # ---- C14
 mut('m-c14-pong-after-yield', 'C14', 'lomond/session.py', "                            self._on_event(event, auto_pong)\n                            yield event\n", "                            if event.name != 'ping':\n                                self._on_event(event, auto_pong)\n                            yield event\n                            if event.name == 'ping':\n                                self._on_event(event, auto_pong)\n",
     'automatic pong written after the Ping event was handed to the application')
@@ -128,7 +128,8 @@ REVERTS = {   # fix commit -> (finding, property whose check must report its rev
     'b00339c': ('F11', 'C17'), 'ab4d83b': ('F12', 'C06'), 'ccdc7b1': ('F13', 'C06'), 'b0fb456': ('F14', 'C10'), 'c2b6c6b': ('F15', 'C10'),
     'fbe7813': ('F16', 'C09'), 'ce9bb33': ('F17', 'C15'), '01ca613': ('F18', 'C08'), '24dd2c9': ('F19', 'C06'), '5562bdb': ('F20', 'C11'),
     '032a03a': ('F21', 'C05'), '6846ff6': ('F22', 'C02'), '3faf252': ('F23', 'C14'), '814a211': ('F24', 'C13'), 'ab372e5': ('F25', 'C10'),
-    '99089b5': ('F26', 'C19'),
+    '99089b5': ('F26', 'C19'), 'baa994e': ('F28', 'C07'), '530f176': ('F29', 'C11'), '722a7e2': ('F30', 'C12'), '41d9a82': ('F31', 'C03'),
+    'a2e88b6': ('F32', 'C08'),
 }
 
 
